@@ -44,7 +44,9 @@ class C15(Spec):
                     "into Got/Generated/AstSortxSort.lean) and the MiniGoSort interpreter's reading of Go (64-bit wrap-around, "
                     "truncated division, shifts, short-circuit conditions, for/break/return, calls; Got/Model/MiniGoSort.lean); "
                     "the interpreter run on the generated terms is compared with the real code on every SliceBy case of the "
-                    "correspondence (driver mode `ast`); the SliceBy glue (min of the lengths, length<=1 guard) is hand-written"]
+                    "correspondence (driver mode `ast`); the SliceBy glue (min of the lengths, length<=1 guard) is hand-written; "
+                    "UniqueInt/UniqueString likewise (MiniGoSlice terms in Got/Generated/AstSortxUnique.lean, interpreter "
+                    "Got/Model/MiniGoSlice.lean with Go's index and reslice checks, every `unique` line compared in `ast` mode)"]
     assumptions = ["less is a deterministic function of slice contents, call history and the two indices",
                    "sortedness clause: the key order is a strict weak order"]
 
@@ -164,7 +166,7 @@ class C15(Spec):
 
     def extra(self, ctx):
         """second correspondence: the MiniGoSort interpreter on the terms regenerated from /repo's source (driver mode
-        `ast`) must print what the real code printed on every slice/multi line (validates translator + interpreter
+        `ast`) must print what the real code printed on every slice/multi/unique line (validates translator + interpreter
         semantics; the Lean theorems C15_translated_source_*_refines_model tie those terms to the model)."""
         ex = ctx.get("ex")
         cov = ctx["coverage"]
@@ -173,7 +175,11 @@ class C15(Spec):
         if os.path.exists(gen):
             for m in re.finditer(r'^def (\w+)Note : String := "((?:[^"\\]|\\.)*)"', open(gen).read(), re.M):
                 notes[m.group(1)] = m.group(2)
-        bad_notes = {f: notes.get(f, "<no translation>") for f in self.AST_FUNCS if notes.get(f) != "ok"}
+        genu = os.path.join(C.LEAN, "Got", "Generated", "AstSortxUnique.lean")
+        if os.path.exists(genu):
+            for m in re.finditer(r'^def (\w+)Note : String := "((?:[^"\\]|\\.)*)"', open(genu).read(), re.M):
+                notes[m.group(1)] = m.group(2)
+        bad_notes = {f: notes.get(f, "<no translation>") for f in self.AST_FUNCS + ("uniqueInt", "uniqueString") if notes.get(f) != "ok"}
         cov["translation_notes"] = "ok" if not bad_notes else bad_notes
         if bad_notes:
             ctx["broken"].append({"layer": "L2", "what": "translator: no longer inside the MiniGoSort fragment: %s" % bad_notes})
